@@ -217,20 +217,21 @@ def run(prop, tier, seed):
     rep = vlib.Report(prop)
     which = ["scan"] if prop == "C09" else ["point"] if prop == "C03" else ["point", "scan"]
     cov = validate_runs(prop, tier, seed, rep, which)
-    if prop in ("C03", "C04", "C14"):
+    if prop in ("C03", "C04", "C14", "C09"):
         # the design-level model: exhaustive TLC per scenario, protection flags, killer schedules
         import olcart
-        gen_n, dist, names = olcart.model_check(tier)
+        gen_n, dist, names = olcart.model_check(tier, scans=(prop == "C09"))
         kill = olcart.killers()
         cov["states"] += dist
         cov["transitions"] += gen_n
         cov["olcart_model"] = {"scenarios_checked_exhaustively": names, "distinct_states": dist, "generated_states": gen_n,
-                               "invariants": "NoBadOutcome(Linearizable, NoUseAfterFree) OneWriterPerNode NoLockHeldAtReturn NoOrphanLock SpinnersHoldNothing FinalTreeIsMap NoReachableRetired NothingLeaked ShapeOK + deadlock",
+                               "module": "OlcArtIter (iterator and scan protocol on top of OlcArt)" if prop == "C09" else "OlcArt",
+                               "invariants": "NoBadOutcome(Linearizable, NoUseAfterFree, ScanBounded, ScanOrdered, ScanValueWasHeld, ScanComplete) OneWriterPerNode NoLockHeldAtReturn NoOrphanLock SpinnersHoldNothing FinalTreeIsMap NoReachableRetired NothingLeaked ShapeOK + deadlock",
                                "protection_flags": {f: ({"refuted_by_TLC": True, "clause": k["clause"] or k["violation"], "killer_schedule": k["schedule"]}
                                                         if k.get("refuted") else
                                                         {"refuted_by_TLC": False, "note": "not needed by any listed property at the model's granularity (field segments are atomic)"})
                                                     for f, k in kill.items()}}
-        if prop == "C03":
+        if prop in ("C03", "C09"):
             d = os.path.join(vlib.CACHE, "olc_kill_%d" % os.getpid())
             shutil.rmtree(d, ignore_errors=True)
             os.makedirs(d)
